@@ -57,6 +57,7 @@ def _case(draw):
         if op == "compress":
             o["keep"] = draw(st.booleans())
             o["check"] = draw(st.booleans())
+            o["chunk"] = draw(st.one_of(st.none(), st.integers(7, 97)))  # None: the recording's usual chunk size
             o["fault"] = draw(st.sampled_from([None, None, "chunk", "check"]))
             o["k"] = draw(st.integers(0, 10 ** 6))
         elif op == "decompress":
@@ -121,6 +122,7 @@ class World:
         self.ch = self.bin.with_suffix(".ch")
         self.meta = self.bin.with_suffix(".meta")
         self.nchunks = int(np.ceil(self.ns / case["chunk"]))
+        self.cur_chunk = case["chunk"]  # chunk size of the .cbin currently on disk (changes when a compress op uses its own)
 
     # -- reader construction ---------------------------------------------------------------------
     def reader(self, path, kind="C02.open"):
@@ -175,8 +177,8 @@ class World:
         A = self.expected(sr)
         sels = [slice(a, b, s) for a, b, s in self.case["slices"]]
         if boundary:
-            ch = self.case["chunk"]
-            for kb in range(1, self.nchunks):
+            ch = self.cur_chunk
+            for kb in range(1, int(np.ceil(self.ns / ch))):
                 b = kb * ch
                 for a in range(b - 2, b + 3):
                     for e in range(b - 2, b + 3):
@@ -218,7 +220,7 @@ def _do_compress(w, o, fault_at=None, fault_kind=None):
     sr = w.reader(w.bin)
     if sr is ctx.CRASH:
         return "crash"
-    kw = dict(keep_original=o["keep"], chunk_duration=w.case["chunk"] / w.fs, n_threads=w.case["threads"],
+    kw = dict(keep_original=o["keep"], chunk_duration=(o.get("chunk") or w.case["chunk"]) / w.fs, n_threads=w.case["threads"],
               check_after_compress=bool(o["check"] or fault_kind == "check"))
     cnt = faults.Counter(fail_at=fault_at, exc=faults.Crash if fault_kind == "kill" else faults.InjectedFault)
     targets = []
@@ -275,8 +277,9 @@ def _check_after_compress_fault(w, before, where):
 def _enumerate_compress_faults(w, o, step):
     """All fault points of this compress operation, each on a fresh copy of the directory."""
     ctx = w.ctx
-    nbatches = int(np.ceil(w.nchunks / w.case["threads"]))
-    points = [("chunk", k) for k in range(w.nchunks)] + [("check", 0), ("rename", 0)] + [("kill", b) for b in range(nbatches)]
+    nch = int(np.ceil(w.ns / (o.get("chunk") or w.case["chunk"])))
+    nbatches = int(np.ceil(nch / w.case["threads"]))
+    points = [("chunk", k) for k in range(nch)] + [("check", 0), ("rename", 0)] + [("kill", b) for b in range(nbatches)]
     for kind, k in points:
         dst = w.d.parent / f"{w.d.name}_f{step}_{kind}{k}"
         w2 = _copy_world(w, ctx, dst)
@@ -344,7 +347,7 @@ def _enumerate_scratch_faults(w, o, step):
     ctx = w.ctx
     if (not o["dir"] or w.flat) and w.has_bin():
         return  # nothing is decompressed: the existing .bin is returned
-    for k in list(range(w.nchunks)) + ["kill"]:
+    for k in list(range(int(np.ceil(w.ns / w.cur_chunk)))) + ["kill"]:
         dst = w.d.parent / f"{w.d.name}_s{step}_{k}"
         w2 = _copy_world(w, ctx, dst)
         try:
@@ -451,7 +454,7 @@ def run_case(case, ctx):
                 _enumerate_compress_faults(w, o, step)
                 before = (w.has_cbin(), _sha(w.cbin) if w.has_cbin() else None, _sha(w.bin))
                 fk = o["fault"]
-                k = (o["k"] % w.nchunks) if fk == "chunk" else 0
+                k = (o["k"] % int(np.ceil(w.ns / (o.get("chunk") or case["chunk"])))) if fk == "chunk" else 0
                 res = _do_compress(w, o, fault_at=k if fk else None, fault_kind=fk)
                 if res == "crash":
                     return
@@ -459,6 +462,7 @@ def run_case(case, ctx):
                     _check_after_compress_fault(w, before, f"step {step} compress fault")
                 else:
                     ctx.check(w.has_cbin() and w.ch.exists(), "C02.no_cbin", "compress_file returned but no .cbin/.ch pair exists")
+                    w.cur_chunk = o.get("chunk") or case["chunk"]
                     ctx.check(w.has_bin() == bool(o["keep"]), "C02.keep_original", lambda: f"keep_original={o['keep']} but bin exists={w.has_bin()}")
                     ctx.check(not w.bin.with_suffix(".cbin_tmp").exists(), "C02.tmp_left", "temporary file left behind")
                     if w.has_bin() and w.has_cbin():
@@ -479,7 +483,7 @@ def run_case(case, ctx):
                     return
                 had_bin = w.has_bin()
                 fk = o["fault"]
-                cnt = faults.Counter(fail_at=(o["k"] % w.nchunks) if fk else None)
+                cnt = faults.Counter(fail_at=(o["k"] % int(np.ceil(w.ns / w.cur_chunk))) if fk else None)
                 targets = [(mtscomp.Reader, "_decompress_chunk", "decompress_chunk", "before")] if fk else []
                 csha, chsha = _sha(w.cbin), _sha(w.ch)
                 try:
@@ -518,7 +522,7 @@ def run_case(case, ctx):
                 _enumerate_scratch_faults(w, o, step)
                 fk = o["fault"]
                 stale_tmp = {p.name for p in list(w.d.glob("*.bin_temp")) + list((w.d / "scratch").glob("*.bin_temp"))}
-                res, target = _do_scratch(w, o, fault_at=(o["k"] % w.nchunks) if fk else None)
+                res, target = _do_scratch(w, o, fault_at=(o["k"] % int(np.ceil(w.ns / w.cur_chunk))) if fk else None)
                 if res == "crash":
                     return
                 if res == "fault":
